@@ -121,6 +121,15 @@ Proof.
   pose proof (fibonacci_invariant cmp eqv TO sizes ops Hws i h Hi) as H. destruct h; simpl in H; try tauto; eauto.
 Qed.
 
+(** … hence the transcriptions [b_verify], [n_verify], [f_verify] of the three [verify()] methods
+    answer true in every reachable state (the harness compares this with the real method). *)
+Theorem C04_verify_true :
+  forall (K V : Type) (cmp : K -> K -> Z) (eqv : V -> V -> bool), TotalOrder K cmp ->
+  forall (i : impl) sizes ops, well_scoped K V (mergeable i) (all_live sizes) ops = true ->
+  forall j h, nth_error (p_final K V cmp eqv (p_init K V i sizes) ops) j = Some (Some h) ->
+              h_verify K V cmp h = true.
+Proof. intros K V cmp eqv TO. exact (verify_true cmp eqv TO). Qed.
+
 (** Binomial heap: [n] is the sum of [2^order] over the root list and the orders are strictly
     increasing, i.e. the root orders are exactly the positions of the one-bits of [n]. *)
 Theorem C04_binomial_roots_are_bits_of_n :
@@ -199,6 +208,7 @@ Print Assumptions C04_spec_merge.
 Print Assumptions C04_binary_invariant.
 Print Assumptions C04_binomial_invariant.
 Print Assumptions C04_fibonacci_invariant.
+Print Assumptions C04_verify_true.
 Print Assumptions C04_binomial_roots_are_bits_of_n.
 Print Assumptions C04_fibonacci_delete_consolidates.
 Print Assumptions C04_degree_table_bound.
